@@ -37,7 +37,9 @@ StepN(M, st) ==
       \* the monitor's own record of the loss (time, after a DPR or not); a loss in this very step counts from now
       lostNow(p) == M0.prev[p].conn # 0 /\ (\E j \in 1..Len(out) : out[j].ev = "sock_close" /\ out[j].c = M0.prev[p].conn)
       lossT(p) == IF lostNow(p) THEN now ELSE M0.lossAt[p]
-      lossD(p) == IF lostNow(p) THEN M0.dprd[M0.prev[p].conn] ELSE M0.lossDpr[p]
+      \* (a DPR received in the very step in which the connection is lost - DPR and DPA in one read - counts)
+      dprNow(c) == feed /\ c = c0 /\ ~M0.gone[c0] /\ \E j \in 1..Len(ms) : IsDpr(ms[j]) /\ ms[j].oh # "" /\ (M0.rdy[c0] \/ \E k \in 1..(j - 1) : ms[k].cmd = "CE")
+      lossD(p) == IF lostNow(p) THEN (M0.dprd[M0.prev[p].conn] \/ dprNow(M0.prev[p].conn)) ELSE M0.lossDpr[p]
       okDial(p) ==
         /\ MCfg.peers[p].persistent
         /\ ~M0.stopping
@@ -78,16 +80,18 @@ StepN(M, st) ==
                  THEN ms[CHOOSE j \in 1..Len(ms) : ms[j].cmd = "CE" /\ ms[j].req /\ \A k \in 1..(j - 1) : ~(ms[k].cmd = "CE" /\ ms[k].req)].oh ELSE ""
       M2 == [M1 EXCEPT !.viol = @ \cup {[sig |-> s, at |-> M0.i] : s \in sigs},
                        !.started = @ \/ st.act.a = "start",
-                       !.dprd = [c \in CIds |-> @[c] \/ (feed /\ c = c0 /\ M0.rdy[c0] /\ ~M0.gone[c0] /\ \E j \in 1..Len(ms) : IsDpr(ms[j]) /\ ms[j].oh # "")],
+                       !.dprd = [c \in CIds |-> @[c] \/ dprNow(c)],
                        !.lossAt = [p \in MPeers |-> IF \E j \in 1..Len(out) : out[j].ev = "dial" /\ out[j].p = p /\ out[j].r = "fail" THEN now   \* a failed attempt restarts the wait
                                                     ELSE IF sn.peers[p].conn # 0 /\ ~lostNow(p) THEN -1
                                                     ELSE IF lostNow(p) \/ (M0.prev[p].conn # 0 /\ sn.peers[p].conn = 0) THEN now ELSE @[p]],
                        !.lossDpr = [p \in MPeers |-> IF sn.peers[p].conn # 0 /\ ~lostNow(p) THEN FALSE
-                                                     ELSE IF lostNow(p) THEN M0.dprd[M0.prev[p].conn]
-                                                     ELSE IF M0.prev[p].conn # 0 /\ sn.peers[p].conn = 0 THEN M0.dprd[M0.prev[p].conn] ELSE @[p]],
+                                                     ELSE IF lostNow(p) THEN (M0.dprd[M0.prev[p].conn] \/ dprNow(M0.prev[p].conn))
+                                                     ELSE IF M0.prev[p].conn # 0 /\ sn.peers[p].conn = 0 THEN (M0.dprd[M0.prev[p].conn] \/ dprNow(M0.prev[p].conn)) ELSE @[p]],
                        !.prev = [p \in MPeers |-> [conn |-> sn.peers[p].conn, reason |-> sn.peers[p].reason, ldisc |-> sn.peers[p].ldisc]],
                        !.cand = [c \in CIds |-> IF c = c0 /\ @[c] = "" /\ cerHost # "" THEN cerHost ELSE @[c]],
-                       !.gone = [c \in CIds |-> @[c] \/ IsClosed(sn, c) \/ (feed /\ c = c0 /\ \E j \in 1..Len(ms) : ms[j].cmd = "DP")
+                       \* (a DPR / DPA ends service only on a connection through its capabilities exchange: before that it is ignored)
+                       !.gone = [c \in CIds |-> @[c] \/ IsClosed(sn, c)
+                                               \/ (feed /\ c = c0 /\ \E j \in 1..Len(ms) : ms[j].cmd = "DP" /\ (M0.rdy[c] \/ \E k \in 1..(j - 1) : ms[k].cmd = "CE"))
                                                \/ (st.act.a \in {"peer_close", "peer_reset"} /\ st.act.c = c)]]
   IN [M2 EXCEPT !.rdy = [c \in CIds |-> @[c] \/ (M1.dir[c] = "in" /\ succIn(c)) \/ succOut(c)],
                 !.peer = [c \in CIds |-> IF M1.dir[c] = "in" /\ succIn(c) /\ @[c] = "" THEN M2.cand[c] ELSE @[c]]]
